@@ -57,24 +57,34 @@
    model: an assignment is a function shard -> runner and always carries the
    restored cursor; the replayer checks both on the real messages.)
 
-   Named deviations = what the code does (TRUE) against a mechanism that keeps
+   Named deviation = what the code does (TRUE) against a mechanism that keeps
    the property (FALSE):
-     Dev_LastRegress        TrackAssigned sets LastAssigned to the last shard of
-                            the batch, so it moves backwards when children of an
-                            older parent are assigned after newer shards; the
-                            next ListShards re-lists shards that were finished
-                            and removed => handed out again.
-                            FALSE: LastAssigned only grows.
-     Dev_ForgetWithheld     Checkpoint() holds only the ASSIGNED shards; known
-                            but withheld shards (children of an unfinished
-                            parent) below LastAssigned are neither restored nor
-                            re-listed (ExclusiveStartShardId) => never read.
-                            FALSE: the checkpoint holds every known shard.
      Dev_StateAtCompletion  (DESIGN 7 #27) the splitter state is taken at
                             completion, the cursors at the barrier: a shard
-                            finished in between is in neither list.
+                            finished in between is in neither list, is not
+                            listed again (ExclusiveStartShardId) and its
+                            children are handed out although it was never read
+                            to its end in the restored timeline.
                             FALSE: the checkpoint's shard set is the one of the
-                            cut (shards finished after the cut are kept).      *)
+                            cut (shards finished after the cut are kept).
+   The model is the REPAIRED code (fix commits on branch verif-splitter). The
+   switches Pre_* re-enable what the code did before; the check uses them to
+   show that the invariants are not vacuous and to replay the schedules only the
+   unrepaired code admits (the real code must not break the property on them):
+     Pre_LastRegress        TrackAssigned set LastAssigned to the last shard of
+                            the batch, so it moved backwards when children of an
+                            older parent were assigned after newer shards (or a
+                            restored shard with a lower id came first); the next
+                            ListShards re-listed shards that were finished and
+                            removed => handed out again.
+     Pre_ForgetWithheld     Checkpoint() held only the ASSIGNED shards; known
+                            but withheld shards (children of an unfinished
+                            parent) below LastAssigned were neither restored
+                            nor re-listed => never read.
+   (DESIGN 7 #21 - Start(own checkpoint) dereferenced nil big.Ints and then
+   assigned every restored shard twice - and #25 - the embedded splitter's
+   Start(checkpoint) panicked - are repaired too and have no switch: they do
+   not change which schedules exist.)                                        *)
 EXTENDS Integers, Sequences, FiniteSets, TLC, Json
 
 CONSTANTS Kind,        \* "kinesis" | "embedded" | "httpapi"
@@ -85,7 +95,7 @@ CONSTANTS Kind,        \* "kinesis" | "embedded" | "httpapi"
           MaxLen,      \* steps per behaviour (generation only)
           LogOn,       \* FALSE: no history (exhaustive runs)
           MaxStarts,   \* (re)starts per behaviour (generation only)
-          Dev_LastRegress, Dev_ForgetWithheld, Dev_StateAtCompletion
+          Pre_LastRegress, Pre_ForgetWithheld, Dev_StateAtCompletion
 
 VARIABLES shards,      \* the stream: <<[lo, hi, par, closed], ...>>
           up,          \* a splitter incarnation is running
@@ -100,7 +110,7 @@ VARIABLES shards,      \* the stream: <<[lo, hi, par, closed], ...>>
           pend, barr,  \* a job checkpoint is pending; runners past their barrier
           pcur, pfin,  \* cursors captured so far / shards finished at the cut so far
           K,           \* the latest completed checkpoint
-          whyS, whyF,  \* ghost: shards dropped by Dev_StateAtCompletion / Dev_ForgetWithheld
+          whyS, whyF,  \* ghost: shards dropped by Dev_StateAtCompletion / Pre_ForgetWithheld
           bad,         \* ghost: violations produced by the last action
           nst,         \* (re)starts so far (generation only; stays 0 in exhaustive runs)
           hist
@@ -131,15 +141,15 @@ DA(kn0, asg0, last0) ==
       av  == {s \in kn1 \ asg0 : \A p \in Par(s) : p \notin kn1}
   IN  [known |-> kn1, avail |-> av, asg |-> asg0 \cup av,
        last  |-> IF av = {} THEN last0
-                 ELSE IF Dev_LastRegress \/ Max(av) > last0 THEN Max(av) ELSE last0]
+                 ELSE IF Pre_LastRegress \/ Max(av) > last0 THEN Max(av) ELSE last0]
 
 \* the property, judged on one round of assignments `av` made with timeline `f`
 WhyOf(S, wS, wF) == IF S \cap wS # {} THEN "Dev_StateAtCompletion"
-                    ELSE IF S \cap wF # {} THEN "Dev_ForgetWithheld" ELSE "?"
+                    ELSE IF S \cap wF # {} THEN "Pre_ForgetWithheld" ELSE "?"
 Judge(av, f, own1, kn1, wS, wF) ==
-     {[k |-> "reread", s |-> s, dev |-> IF Dev_LastRegress THEN "Dev_LastRegress" ELSE "?"] : s \in av \cap f}
+     {[k |-> "reread", s |-> s, dev |-> IF Pre_LastRegress THEN "Pre_LastRegress" ELSE "?"] : s \in av \cap f}
   \cup {[k |-> "early", s |-> s, dev |-> WhyOf(Par(s) \ f, wS, wF)] : s \in {x \in av : Par(x) \ f # {}}}
-  \cup {[k |-> "lost", s |-> s, dev |-> IF Dev_LastRegress /\ Par(s) \cap kn1 # {} THEN "Dev_LastRegress" ELSE WhyOf({s}, wS, wF)] :
+  \cup {[k |-> "lost", s |-> s, dev |-> IF Pre_LastRegress /\ Par(s) \cap kn1 # {} THEN "Pre_LastRegress" ELSE WhyOf({s}, wS, wF)] :
           s \in {x \in Ids : x \notin f /\ Par(x) \subseteq f /\ own1[x] = 0}}
 
 AssignList(av, r, sc) ==
@@ -231,8 +241,9 @@ Progress(s) ==
 \* embedded / httpapi readers advance every split they hold by one batch
 RunnerRead(r) ==
   /\ up /\ Kind # "kinesis" /\ r \in 1..R
-  /\ \E s \in Ids : own[s] = r /\ cur[s] < MaxCur
-  /\ cur' = [s \in All |-> IF own[s] = r /\ cur[s] < MaxCur THEN cur[s] + 1 ELSE cur[s]]
+  /\ \E s \in Ids : own[s] = r
+  /\ \A s \in Ids : own[s] = r => cur[s] < MaxCur
+  /\ cur' = [s \in All |-> IF own[s] = r THEN cur[s] + 1 ELSE cur[s]]
   /\ bad' = {} /\ Log([a |-> "RunnerRead", r |-> r])
   /\ UNCHANGED <<shards, up, R, known, asg, last, scur, own, fin, finBy, pend, barr, pcur, pfin, K, whyS, whyF, nst>>
 
@@ -267,10 +278,10 @@ Complete ==
          late    == fin \ finK
          base    == IF Dev_StateAtCompletion THEN known ELSE (known \cup fin) \ finK
          asgView == IF Dev_StateAtCompletion THEN asg ELSE (asg \cup fin) \ finK
-         kn      == IF Dev_ForgetWithheld THEN base \cap asgView ELSE base
+         kn      == IF Pre_ForgetWithheld THEN base \cap asgView ELSE base
      IN  /\ K' = [has |-> TRUE, known |-> kn, last |-> last, cur |-> pcur, fin |-> finK,
                   whyS |-> whyS \cup (IF Dev_StateAtCompletion THEN late ELSE {}),
-                  whyF |-> whyF \cup (IF Dev_ForgetWithheld THEN base \ asgView ELSE {})]
+                  whyF |-> whyF \cup (IF Pre_ForgetWithheld THEN base \ asgView ELSE {})]
          /\ Log([a |-> "Complete", known |-> SetSeq(kn), last |-> last])
   /\ pend' = FALSE /\ bad' = {}
   /\ UNCHANGED <<shards, up, R, known, asg, last, scur, own, cur, fin, finBy, barr, pcur, pfin, whyS, whyF, nst>>
